@@ -74,14 +74,29 @@ def rand_arrivals(r, n, nkeys, fmt):
     """arrivals colliding on few keys; columns drawn from 2 alternatives so that groups of equal columns occur"""
     out = []
     base = {}
+    # in about a fifth of the cases the coordinates of the arrivals are '.' (stored as NULL) or alternate between '.'
+    # and a number: two arrivals whose start (end) is '.' agree in that column like any other two equal values
+    dots = r.random() < 0.2
     for i in range(n):
         k = "k%d" % r.randrange(nkeys)
         if r.random() < 0.12:
             k = "k%d_%d" % (r.randrange(nkeys), r.randrange(1, 3))       # collides with a generated '<key>_n'
         b = base.setdefault(k, {"seqid": "chr1", "source": "A", "featuretype": "exon", "start": 10 + 7 * len(base),
                                 "end": 500, "score": ".", "strand": "+", "frame": "."})
+        if dots and k not in base.get("__dotted__", ()):
+            base.setdefault("__dotted__", set()).add(k)
+            x = r.random()
+            if x < 0.4:
+                b["start"] = "."
+            elif x < 0.7:
+                b["end"] = "."
+            elif x < 0.85:
+                b["start"] = b["end"] = "."
         cols = dict(b)
-        for c, alts in (("source", ["A", "B", "C"]), ("strand", ["+", "-"]), ("start", [b["start"], b["start"] + 1]),
+        if dots and r.random() < 0.25:
+            c = r.choice(["start", "end"])
+            cols[c] = "." if cols[c] != "." else (17 if c == "start" else 500)
+        for c, alts in (("source", ["A", "B", "C"]), ("strand", ["+", "-"]), ("start", [b["start"], b["start"] + 1 if b["start"] != "." else 11]),
                         ("score", [".", "5"]), ("frame", [".", "0"])):
             if r.random() < 0.25:
                 cols[c] = r.choice(alts)
@@ -198,7 +213,8 @@ def observe(db, fmt):
         if row["source"] == "gffutils_derived":
             continue
         out[str(row["id"])] = {"cols": {"seqid": row["seqid"], "source": row["source"], "featuretype": row["featuretype"],
-                                        "start": row["start"], "end": row["end"], "score": row["score"],
+                                        "start": "." if row["start"] is None else row["start"],     # '.' is stored as NULL
+                                        "end": "." if row["end"] is None else row["end"], "score": row["score"],
                                         "strand": row["strand"], "frame": row["frame"]},
                                "attrs": {k: set(v) for k, v in row["attributes"].items()},
                                "attr_lists": row["attributes"], "links": set()}
